@@ -386,7 +386,7 @@ def first_diff(a, b, path=""):
     return None if a == b else (path, a, b)
 
 
-COMPARED = ("status", "stage", "file_list", "files", "modules", "packages")
+COMPARED = ("status", "stage", "file_list", "files", "modules", "packages", "real_render")
 
 
 def view(res):
